@@ -463,3 +463,11 @@ RULES = [
     ("C01.NAN", "NaN rules of the stack cell (default and vector-backed state)", rule_nan),
     ("C01.LOOP", "execute(): run from the appended command until control passes it", rule_loop),
 ]
+
+
+def rule_cmp(ctx, R):
+    from . import p_c07
+    return p_c07.rule_cross(ctx, R)
+
+
+RULES.append(("C01.CMP", "the comparison a ? / ! area branches on: NaN unordered, equality, cross-multiplication orientation (shared with C07)", rule_cmp))
